@@ -697,6 +697,45 @@ def check_public_writes(run, rename=None):
     run.info["write_int_call_sites"] = nsites
 
 
+def flush_shaped(fn):
+    """every store to m_p / m_avail in fn belongs to a group  <output writer call>(m_buffer, m_p - m_buffer, ..); m_p = m_buffer;
+    m_avail = BUFFER_SIZE;  - adjacent statements of one block, the staged bytes handed over first"""
+    stores = [x for x in ir.walk(fn["body"]) if x.get("k") == "Bin" and (x.get("op") or "").endswith("=") and x.get("op") not in ("==", "!=", "<=", ">=") and
+              path(x.get("lhs")) in (("this", "m_p"), ("this", "m_avail"))]
+    stores += [x for x in ir.walk(fn["body"]) if x.get("k") == "Un" and x.get("op") in ("pre++", "post++", "pre--", "post--") and
+               path(x.get("e")) in (("this", "m_p"), ("this", "m_avail"))]
+    if not stores:
+        return False
+    covered = set()
+    for b in ir.walk(fn["body"]):
+        if b.get("k") != "Block":
+            continue
+        sts = b.get("s", [])
+        for i, s_ in enumerate(sts):
+            u = unwrap(s_)
+            if not (isinstance(u, dict) and u.get("k") == "MCall" and len(u.get("args", [])) >= 2):
+                continue
+            rc = path(unwrap_all_casts(u.get("recv")))
+            recv_txt = show(u.get("recv"))
+            if "m_cos" not in recv_txt:
+                continue
+            a0, a1 = unwrap_all_casts(u["args"][0]), unwrap_all_casts(u["args"][1])
+            if not (is_member(a0, "m_buffer") and isinstance(a1, dict) and a1.get("k") == "Bin" and a1.get("op") == "-" and
+                    is_member(unwrap_all_casts(a1["lhs"]), "m_p") and is_member(unwrap_all_casts(a1["rhs"]), "m_buffer")):
+                continue
+            nxt = [unwrap(x) for x in sts[i + 1:i + 3]]
+            got = {}
+            for x in nxt:
+                if isinstance(x, dict) and x.get("k") == "Bin" and x.get("op") == "=":
+                    if path(x.get("lhs")) == ("this", "m_p") and is_member(unwrap_all_casts(x.get("rhs")), "m_buffer"):
+                        got["m_p"] = x
+                    if path(x.get("lhs")) == ("this", "m_avail") and (unwrap_all_casts(x.get("rhs")) or {}).get("n") == "BUFFER_SIZE":
+                        got["m_avail"] = x
+            if len(got) == 2:
+                covered |= {id(got["m_p"]), id(got["m_avail"])}
+    return all(id(x) in covered for x in stores)
+
+
 def check_buffer_discipline(run):
     facts = run.facts
     # who may write m_p / m_avail
@@ -775,6 +814,10 @@ def check_buffer_discipline(run):
         run.ob("R06.4", "write_int:stores-within-free-space", None, wi, wi["line"], "write_int is not decidable cell by cell (%s)" % ex)
     for q, ws in writers.items():
         ok = q in allowed
+        if not ok and all(flush_shaped(g_) for g_ in facts.fns(q)):
+            run.ob("R06.4", "writer:%s" % q.split("::")[-1], True, facts.fns(q)[0], ws[0][1]["l"],
+                   "resets the cursor only straight after handing the staged bytes [m_buffer, m_p) to the output writer itself (a flush site of its own)")
+            continue
         run.ob("R06.4", "writer:%s" % q.split("::")[-1], ok, facts.fns(q)[0], ws[0][1]["l"],
                "buffer cursor written by its owner function" if ok else
                "%s writes %s directly; only the constructor, update_buffer and flush_buffer may" % (q, sorted(set(w[0] for w in ws))))
@@ -1179,6 +1222,8 @@ def general_write_string(run, f, because):
             return "update"
         if nm == "flush_buffer" and (u.get("callee") or {}).get("cls") == ENC:
             return "flush"
+        if u.get("k") == "MCall" and len(u.get("args", [])) == 4 and "m_cos" in show(u.get("recv")) and is_member(unwrap_all_casts(u["args"][0]), "m_buffer"):
+            return "gather"         # <writer>(m_buffer, staged, src, n): staged bytes and n bytes of the source in one call
         return None
     try:
         cap = [v for v in run.facts.vars if v["qn"] == "CDNS::CdnsEncoder::BUFFER_SIZE" and isinstance((v.get("init") or {}).get("cv"), int)]
